@@ -6,6 +6,18 @@ HERE = os.path.dirname(os.path.dirname(os.path.abspath(__file__)))
 
 # id -> (category, technique, level text, level note, design ref)
 CHECKS = {
+ "C02": ("exploration", "bounded-exhaustive execution: every corpus/hand-written function x full cross product of boundary inputs x gas ladder x configurations, plus every compile-accepted single-point Sierra mutant, run on the real VM",
+         "Every run of the enumerated space must end in Ok (value or Sierra-level panic); a CairoRunError or runner panic is the violation. The accepted-mutant part executes valid Sierra the front end can never produce (swapped same-typed variables, retargeted aligned branches, swapped libfuncs), which is where 'accepted implies safe' can actually fail.",
+         "Honest hints only; syscalls out of scope; inputs limited to scalar parameters (<=3) from the boundary domains.", "DESIGN.md §3 C02"),
+ "C04": ("exploration", "bounded-exhaustive execution with a per-run gas-accounting monitor over the relocated trace",
+         "For every run of the execution space the property's inequality is evaluated from the real trace and resource counters; the evidence shows the minimum slack reached is exactly 0 on the unchanged tree (the formula is tight), so any undercharged step on an executed path is caught.",
+         "Accounting convention (user-code pc range, the +100 return step) fixed on the unmodified tree and stated in the evidence rule; holes and range_check96 unpriced as in the property.", "DESIGN.md §3 C04"),
+ "C05": ("exploration", "bounded-exhaustive differential execution across the optimisation/lowering configuration lattice",
+         "Every function of the execution space is compiled under every configuration of the lattice (6 corners quick, 88 configurations thorough) and run on the full boundary cross product; results are compared with the optimisations-disabled baseline. No hand-written expected values are involved.",
+         "Only pointer-free results are compared (addresses legitimately differ); programs that read the gas counter are excluded; ample gas.", "DESIGN.md §3 C05"),
+ "C17": ("exploration", "bounded-exhaustive execution with an ap/pc monitor over the relocated trace (shadow call stack) plus a static tiling check of statement ranges",
+         "For every dynamic call instance in every run the measured ap movement is compared with function_ap_change; every trace pc must fall in exactly one recorded statement range on an instruction boundary; ranges must tile the code. Millions of dynamic call instances per quick run.",
+         "Call/ret convention fixed on the unmodified tree; both ap-change solvers; functions with unknown ap change are not judged.", "DESIGN.md §3 C17"),
  "C09": ("exploration", "bounded-exhaustive input enumeration on the real front end (all token strings up to length n, all single-point mutants of corpus files, nesting depth sweep)",
          "Every text of the enumerated spaces is pushed through parser, formatter and full semantic+lowering diagnostics under catch_unwind, a fatal-signal handler (stack overflow/abort) and a watchdog; no sampling. Totality is a universally quantified 'never crashes' claim, so the strongest practical evidence is exhaustion of a small-scope input space.",
          "Texts outside the enumerated alphabets/bounds are not covered; 8 MiB stack and a 30 s watchdog stand for 'stack overflow on ordinary nesting' and 'loops forever'.", "DESIGN.md §3 C09"),
